@@ -56,8 +56,12 @@ def gen_foreign(rng):
         nl = specdoc.nl0(enc, dos)
         if kind == 'meta':
             val = {'k': rng.choice([1, '\xe9', [1], {'z': None}, 1.5, True]), 'a': 'b'}
-            text = rng.choice([json.dumps(val), json.dumps(val, indent=2), json.dumps(val, separators=(',', ':')),
-                               json.dumps(val, indent=4, sort_keys=True)]).replace('\n', nlt) + nlt
+            # other producers need not escape non-ASCII characters (the literal 'é' is encodable in
+            # every codec of ENC)
+            ea = rng.random() < 0.5
+            text = rng.choice([json.dumps(val, ensure_ascii=ea), json.dumps(val, indent=2, ensure_ascii=ea),
+                               json.dumps(val, separators=(',', ':'), ensure_ascii=ea),
+                               json.dumps(val, indent=4, sort_keys=True, ensure_ascii=ea)]).replace('\n', nlt) + nlt
             if rng.random() < 0.6:
                 opts['format'] = 'json'
             raw = text.encode(enc or 'utf-8')
